@@ -3,6 +3,7 @@ from . import stackprops as sp, stackcommon as sc
 
 ID = "C09"
 FAMILY = "stack"
+RETRY = 2
 RULE = 'verified controller: writes (PUT) and application sets of bools, ints, floats, strings with quotes / backslashes / HTML characters / non-BMP runes / 2100 bytes, then GET for random id lists mixing existing (readable or not) and missing ids, /accessories of 4 or 16 accessories; remote-update callbacks. non-trivial = a GET after a write'
 ASSUMPTIONS = ["symbolic cryptography in the model (forging is impossible by construction of the message alphabet: INT-CTXT of ChaCha20-Poly1305, EUF-CMA of Ed25519, SRP-6a soundness, CDH on Curve25519, HKDF as a random oracle are assumed, not proved); net/http request parsing is modelled as 400-and-close for ciphertext on a plaintext connection; the reference controller's abstract message kinds are realised by concrete builders in harness/cmd/hcdrv/stack.go"]
 TRUSTED = ["reference controller harness/cmd/hcdrv/refctl.go (math/big SRP with the RFC 3526 prime re-derived from pi, crypto/ed25519, x/crypto curve25519 / chacha20poly1305 / hkdf)", "scenario translation ocaml/fam_stack.ml and canonicalisation tools/vlib/props/stackcommon.py"]
